@@ -701,6 +701,43 @@ func init() {
 		}
 		return out
 	}
+	// time.After: a channel whose value becomes available when the deterministic clock reaches now + d
+	stubs["time.After"] = func(e *Engine, st *State, fr *Frame, fn *ssa.Function, args []Value, pos token.Pos) []exit {
+		now := e.clockOn(st)
+		d := args[0].(*Term)
+		pos64 := e.tc.Ite(e.tc.BVSlt(d, e.bv64(0)), e.bv64(0), d)
+		at := e.tc.BVAdd(now, pos64)
+		v := e.timeNow(st)
+		v.Inst = at
+		id := e.alloc(st, &ChanObj{Cap: 1, Buf: []Value{v}, ReadyAt: at})
+		return retExit(st, ChanV{Obj: id})
+	}
+	instOf := func(e *Engine, st *State, t TimeV, what string) *Term {
+		if t.Inst == nil {
+			panic(unsupported(what + " of a civil time (only instants of the deterministic clock are modelled)"))
+		}
+		return t.Inst
+	}
+	stubs["time.Until"] = func(e *Engine, st *State, fr *Frame, fn *ssa.Function, args []Value, pos token.Pos) []exit {
+		t := args[0].(TimeV)
+		return retExit(st, e.tc.BVSub(instOf(e, st, t, "time.Until"), e.timeNow(st).Inst))
+	}
+	stubs["time.Since"] = func(e *Engine, st *State, fr *Frame, fn *ssa.Function, args []Value, pos token.Pos) []exit {
+		t := args[0].(TimeV)
+		return retExit(st, e.tc.BVSub(e.timeNow(st).Inst, instOf(e, st, t, "time.Since")))
+	}
+	if _, have := stubs["(time.Time).Sub"]; !have {
+		stubs["(time.Time).Sub"] = stubTimeMethod(func(e *Engine, st *State, t TimeV, args []Value, pos token.Pos) Value {
+			u := args[0].(TimeV)
+			if t.Inst == nil && u.Inst == nil {
+				// civil times: through the epoch-second variables (exact within a calendar day, ordered beyond)
+				x, _ := e.timeUnixNano(st, t).(*Term)
+				y, _ := e.timeUnixNano(st, u).(*Term)
+				return e.tc.BVSub(x, y)
+			}
+			return e.tc.BVSub(instOf(e, st, t, "Time.Sub"), instOf(e, st, u, "Time.Sub"))
+		})
+	}
 	stubs["time.Now"] = func(e *Engine, st *State, fr *Frame, fn *ssa.Function, args []Value, pos token.Pos) []exit {
 		return retExit(st, e.timeNow(st))
 	}
@@ -1046,6 +1083,14 @@ func (e *Engine) epochSecond(st *State, t TimeV) *Term {
 	for _, r := range st.epochs {
 		lt, gt := e.secBefore(st, t, r.t), e.secBefore(st, r.t, t)
 		st.assume(c.And(c.Implies(lt, c.BVSlt(S, r.S)), c.Implies(gt, c.BVSlt(r.S, S)), c.Implies(c.Not(c.Or(lt, gt)), c.Eq(S, r.S))))
+		if e.opt.Zone != 2 && t.Rel == nil && r.t.Rel == nil {
+			// on the same calendar day (same location, fixed offset) the difference is exact
+			sod := func(x TimeV) *Term {
+				return c.BVAdd(c.BVAdd(c.BVMul(x.H, e.bv64(3600)), c.BVMul(x.Mi, e.bv64(60))), x.S)
+			}
+			same := c.And(c.Eq(t.Y, r.t.Y), c.Eq(t.M, r.t.M), c.Eq(t.D, r.t.D))
+			st.assume(c.Implies(same, c.Eq(c.BVSub(S, r.S), c.BVSub(sod(t), sod(r.t)))))
+		}
 	}
 	st.epochs = append(st.epochs[:len(st.epochs):len(st.epochs)], epochRec{t, S})
 	e.stubsUsed["Time.UnixMilli / UnixNano: epoch seconds as variables ordered like the instants and bounded by the year (from 1970 on)"] = true
